@@ -104,7 +104,14 @@ pub fn mmap(ctx: &Ctx) -> Stats {
         }
         let data = run.output.unwrap_or_default();
         if trace.events.iter().all(|e| e.site != "mm.write") && (!recs.is_empty() || cfg.header) {
-            st.inconclusive("hook mm.write never reached".into());
+            // nothing went through the mapped writer although something had to be written: if the file is not what it
+            // must be (size = header + records x row, every byte written) that is a violation in its own right;
+            // only a *correct* file produced without the hook leaves the write log without a verdict
+            if let Err((sig, msg)) = check_rows(&data, &recs, &cfg) {
+                st.violate(&delim_sig(&sig), format!("{} (and no write went through the mapped writer)", msg), case());
+            } else {
+                st.inconclusive("hook mm.write never reached".into());
+            }
             continue;
         }
         match check_write_log(&trace.events, &cfg, recs.len(), Some(data.len())) {
